@@ -134,27 +134,39 @@ def run_differential(op, tables, variant):
     return None
 
 
-def check_differential(chk, gens, profiles, full, rng):
-    ops = _ops()
+def _diff_job(j):
+    opname, opkind, case, pname, ci, variants = j
+    op = [o for o in _ops() if o['name'] == opname][0]
+    tables = _inputs(opkind, case, PROFILES[pname], ci)
+    out = []
     with common.private_tmp() as tmp:
-        for op in ops:
-            cases = gens[op['kind'] if op['kind'] != 'group2' else 'group']
-            step = 1 if full else max(1, len(cases) // 60)
-            for ci in range(rng.randrange(step), len(cases), step):
-                case = cases[ci]
-                prof = PROFILES[profiles[ci % len(profiles)]]
-                tables = _inputs(op['kind'], case, prof, ci)
-                nmax = max(len(t) - 1 for t in tables)
-                for variant in strategy_variants(nmax, tmp, rng, full):
-                    msg = run_differential(op, tables, variant)
-                    chk.count(('diff', op['name'], ci, json.dumps({k: (v if k != 'tempdir' else 'tmp') for k, v in variant.items()}, sort_keys=True)))
-                    chk.replayed += 1
-                    if msg:
-                        v2 = {k: (v if k != 'tempdir' else '<private tmp>') for k, v in variant.items()}
-                        chk.violation({'op': op['name'], 'strategy': sorted(v2)},
-                                      '%s inputs=%r strategy=%r: %s' % (op['name'], tables, v2, msg),
-                                      {'kind': 'diff', 'op': op['name'], 'opkind': op['kind'], 'case': case,
-                                       'profile': prof.name, 'occ': ci, 'variant': v2})
+        for variant in variants:
+            v = {k: (tmp if k == 'tempdir' else val) for k, val in variant.items()}
+            out.append(run_differential(op, tables, v))
+    return tables, out
+
+
+def check_differential(chk, gens, profiles, full, rng):
+    jobs = []
+    for op in _ops():
+        cases = gens[op['kind'] if op['kind'] != 'group2' else 'group']
+        step = 1 if full else max(1, len(cases) // 60)
+        for ci in range(rng.randrange(step), len(cases), step):
+            case = cases[ci]
+            pname = profiles[ci % len(profiles)]
+            tables = _inputs(op['kind'], case, PROFILES[pname], ci)
+            nmax = max(len(t) - 1 for t in tables)
+            variants = strategy_variants(nmax, '<private tmp>', rng, full)
+            jobs.append((op['name'], op['kind'], case, pname, ci, variants))
+    for (opname, opkind, case, pname, ci, variants), (tables, msgs) in zip(jobs, common.pmap(_diff_job, jobs)):
+        for variant, msg in zip(variants, msgs):
+            chk.count(('diff', opname, ci, json.dumps({k: (v if k != 'tempdir' else 'tmp') for k, v in variant.items()}, sort_keys=True)))
+            chk.replayed += 1
+            if msg:
+                chk.violation({'op': opname, 'strategy': sorted(variant)},
+                              '%s inputs=%r strategy=%r: %s' % (opname, tables, variant, msg),
+                              {'kind': 'diff', 'op': opname, 'opkind': opkind, 'case': case,
+                               'profile': pname, 'occ': ci, 'variant': variant})
     chk.sample({'kind': 'strategy-differential', 'op': 'leftjoin', 'variant': {'buffersize': 1},
                 'inputs': _inputs('join', gens['join'][len(gens['join']) // 2], PROFILES['ints'], 0)})
 
@@ -402,13 +414,21 @@ def replay_behaviour(beh, view):
     return None, drift
 
 
+def _beh_job(j):
+    beh, vname = j
+    view = [v for v in _mk_views()[0] if v[0] == vname][0]
+    return replay_behaviour(beh, view)
+
+
 def check_behaviours(chk, behaviours, full, rng):
     views, _, _ = _mk_views()
+    jobs = []
     for bi, beh in enumerate(behaviours):
         # sort() memory + file path on every behaviour; the other sort-backed views on a rotating subset
         sel = views[:2] + ([views[2 + bi % (len(views) - 2)]] if not full else views[2:])
-        for view in sel:
-            msg, drift = replay_behaviour(beh, view)
+        jobs += [(bi, beh, view) for view in sel]
+    for (bi, beh, view), (msg, drift) in zip(jobs, common.pmap(_beh_job, [(b_, v_[0]) for _i, b_, v_ in jobs])):
+        if True:
             chk.count(('beh', bi, view[0]))
             chk.replayed += 1
             if msg:
